@@ -48,7 +48,7 @@ Qed.
 Theorem step_pos_nonneg s o s' r : 0 <= pos s -> fstep s o = Some (s', r) -> 0 <= pos s'.
 Proof.
   intros P. destruct o; cbn [fstep]; intros H.
-  - destruct (can_read (fmode s)); [|discriminate]. inversion H; subst; cbn [pos]. pose proof (len_nonneg (if n <? 0 then drop (pos s) (content s) else take n (drop (pos s) (content s)))). lia.
+  - destruct (can_read (fmode s) && (-1 <=? n)); [|discriminate]. inversion H; subst; cbn [pos]. pose proof (len_nonneg (if n <? 0 then drop (pos s) (content s) else take n (drop (pos s) (content s)))). lia.
   - destruct (can_write (fmode s)); [|discriminate]. destruct bs as [|b bs]; inversion H; subst; auto. cbn [pos].
     pose proof (len_nonneg (b :: bs)). pose proof (len_nonneg (content s)). destruct (appending (fmode s)); lia.
   - inversion H; subst; auto.
